@@ -973,8 +973,16 @@ func signalRules(c *Ctx, p *Prog, rule string) {
 				key := fmt.Sprintf("%s#signal.%d", p.FnKey(fn), n)
 				_, isDefer := in.(*ssa.Defer)
 				ok2 := isDefer && entries[fn] != nil && b.Index == 0
+				owner := entries[fn]
+				// ... or a call in a straight-line clean-up helper that only ever runs as such a defer
+				// (defer dsc.terminate(); terminate = close(release); close(output))
+				if !ok2 && entries[fn] == nil && b == straightLine(fn) {
+					if e := p.cleanupOnly(fn, entries, 0); e != nil {
+						ok2, owner = true, e
+					}
+				}
 				why := kind + " is not an unconditional defer of a goroutine entry: the signal can be raised early, twice or skipped"
-				if ok2 && entries[fn].Parent != nil {
+				if ok2 && owner.Parent != nil {
 					// a child / helper goroutine ends before its parent: a signal raised by its defers is early
 					ok2 = false
 					why = kind + " is raised by a goroutine that another goroutine of the discipline starts and joins: the signal is given while the parent (and the handlers it still has to join) are running"
@@ -990,7 +998,7 @@ func childJoinRules(c *Ctx, rt *Routine, rule string) {
 	r, p := c.R, rt.P
 	fn := rt.E.Entry
 	ekey := p.FnKey(fn)
-	order, ok := DeferRunOrder(fn)
+	order, ok := p.CleanupOrder(fn)
 	if !ok {
 		r.Fail(rule, ekey+"#order", p.Pos(fn.Pos()), "UNDECIDED: conditional defer in a goroutine entry")
 		return
